@@ -5,7 +5,7 @@ import re
 
 import pyais
 
-from . import gen, impl
+from . import common, gen, impl
 
 MSG_CLASSES = ['MessageType1', 'MessageType5', 'MessageType18', 'MessageType24PartA', 'MessageType24PartB',
                'MessageType21', 'MessageType27', 'MessageType9', 'MessageType19', 'MessageType3', 'MessageType4',
@@ -449,6 +449,79 @@ def run_tracker_checks(ctx, pid):
     for (ordered, ttl, ops), o in zip(meta, outs):
         ctx.count('mode:%s ttl:%s' % ('ordered' if ordered else 'unordered', ttl))
         check_history(ctx, pid, ordered, ttl, ops, o, attrs_cache)
+
+
+def run_reentrant_checks(ctx, pid):
+    """Histories with a second subscriber that acts on the tracker from inside its callback (removes a companion,
+    reports the vessel again, reports another vessel) or whose handler raises: implementation only.  Checked: the events
+    seen by the first subscriber form CREATED UPDATED* DELETED per MMSI, the tracks after every operation are the
+    MMSIs created and not deleted (C15, C12); after an accepted update or a cleanup no track whose age has reached
+    the TTL is left (C13; not in the histories with a raising handler, where the library promises nothing)."""
+    rng = ctx.rng('tracker-re')
+    pool = make_messages(rng, [411, 422, 433, 444, 455], per=2)
+    lines, meta = [], []
+    for i in range(240 if ctx.tier == 'quick' else 8000):
+        mode = ['pop', 'reseed', 'new', 'raise'][i % 4]
+        ordered = rng.random() < 0.3
+        ttl = rng.choice([3, 5, 10]) if mode != 'raise' or rng.random() < 0.5 else None
+        ops, now = [], 0
+        for _ in range(rng.choice([8, 16, 30])):
+            r = rng.random()
+            if r < 0.55:
+                m = rng.choice(sorted(pool))
+                ts = rng.choice(['N', str(now), str(max(0, now - rng.randint(0, 3)))])
+                ops.append('u:%s:%s' % (rng.choice(pool[m]).hex(), ts))
+            elif r < 0.65:
+                ops.append('p:%d' % rng.choice(sorted(pool)))
+            elif r < 0.75:
+                ops.append('c')
+            else:
+                now += rng.choice([1, 2, 3, 5, 10])
+                ops.append('t:%d' % now)
+        lines.append('tracker_re %d %s %s %s' % (ordered, 'N' if ttl is None else ttl, mode, ' '.join(ops)))
+        meta.append((mode, ordered, ttl, ops))
+    outs = common.pmap(impl.step, lines)
+    ctx.evaluations += len(lines)
+    ctx.corr_commands['tracker_re(oracle only)'] = len(lines)
+    for (mode, ordered, ttl, ops), line, o in zip(meta, lines, outs):
+        ctx.count('reentrant:' + mode)
+        inp = {'reentrant_op': line, 'mode': mode}
+        if o.startswith('ERR'):
+            ctx.fail('a tracker with a subscriber that acts from inside its callback raised', inp, 'no exception', o,
+                     {'kind': 'reentrant-crash', 'mode': mode})
+            continue
+        alive = {}
+        for item in o.split(' ; '):
+            mm = re.match(r'^(\w)\[([^\]]*)\](\S*) \{([^}]*)\} stale=(\S+)$', item)
+            if mm is None:
+                ctx.fail('unparsable output', inp, '', item[:200], {'kind': 'harness'})
+                break
+            kind, evs, note, tracks, stale = mm.groups()
+            bad = None
+            for e in [x for x in evs.split(',') if x]:
+                m_ = int(e[1:])
+                a = alive.get(m_, False)
+                if (e[0] == 'C' and a) or (e[0] in 'UD' and not a):
+                    bad = 'event %s while the vessel is %s' % (e, 'tracked' if a else 'not tracked')
+                    break
+                alive[m_] = e[0] != 'D'
+            if bad is None and pid in ('C15', 'C12') and \
+                    sorted(m_ for m_, a in alive.items() if a) != sorted(int(x) for x in tracks.split()):
+                bad = 'tracks %s but created-and-not-deleted %s' % (tracks, sorted(m_ for m_, a in alive.items() if a))
+            if bad is None and pid == 'C13' and mode != 'raise' and stale != '-' and \
+                    (kind == 'c' or (kind == 'u' and note == '')):
+                bad = 'tracks whose age reached the TTL survive an expiry pass: ' + stale
+            if bad and (pid != 'C13' or 'survive' in bad) and (pid == 'C13' or 'survive' not in bad):
+                ctx.fail('with a subscriber acting from inside its callback: ' + bad, dict(inp, at=item[:60]), 'life cycle / expiry as ever',
+                         item[:200], {'kind': 'reentrant', 'mode': mode})
+                break
+
+
+def replay_reentrant(ctx, pid, payload):
+    inp = payload['failure']['input']
+    o = impl.step(inp['reentrant_op'])
+    print('observed:', o[:600])
+    return None         # judged by regenerating the run (the generic replay)
 
 
 def replay_history(ctx, pid, payload):
